@@ -125,6 +125,23 @@ func jsonMain(args []string) {
 	}
 	ctx := context.Background()
 	seen := map[string]bool{}
+	// events formatted earlier are held (as a gated filter, a channel consumer or a slow sink would) and
+	// re-checked after later events were formatted: the stored line must stay the event's own
+	type held struct {
+		e    *eventlogger.Event
+		want []byte
+	}
+	var ring []held
+	recheck := func() {
+		for _, h := range ring {
+			got, ok := h.e.Format("json")
+			if !ok || string(got) != string(h.want) {
+				oracle("C14 the json line stored for an earlier event changed after another event was formatted: %.60q -> %.60q", h.want, got)
+				ring = nil
+				return
+			}
+		}
+	}
 	for i := 0; i < *n; i++ {
 		st.Cases++
 		st.Ops++
@@ -231,6 +248,13 @@ func jsonMain(args []string) {
 						oracle("C14 payload does not decode to the JSON image of the payload")
 					}
 				}
+			}
+		}
+		if has && err == nil {
+			recheck()
+			ring = append(ring, held{e, append([]byte(nil), stored...)})
+			if len(ring) > 8 {
+				ring = ring[1:]
 			}
 		}
 		st.hit("res:" + strings.Fields(res)[0])
